@@ -43,9 +43,24 @@ static int arithMain(const std::vector<std::string>&, std::istream& in, std::ost
             BasicTypeKind k;
             if (!kindByName(w[1], k)) { out << "bad-case\n"; continue; }
             out << basicKindName(TypeChecker::performIntegerPromotion(k)) << "\n";
-        } else if (w[0] == "type" && w.size() == 2) {
+        } else if ((w[0] == "type" && w.size() == 2) || (w[0] == "ptype" && w.size() == 3)) {
             ParseOptions opts;
-            Analysis a = analyse(unhex(w[1]), opts, P_Check);
+            // ptype <platform> <text>: the compilation is created with CONFIGURED platform options (widths int/long/long long)
+            PlatformOptions plat;
+            bool configured = w[0] == "ptype";
+            if (configured) {
+                int ib = w[1] == "ip16" ? 16 : 32, lb = w[1] == "lp64" ? 64 : 32, llb = 64;
+                typedef PlatformOptions::ArithmeticIntegerType T;
+                auto smax = [](int b) { return b >= 64 ? 0x7fffffffffffffffULL : ((1ULL << (b - 1)) - 1); };
+                auto umax = [](int b) { return b >= 64 ? 0xffffffffffffffffULL : ((1ULL << b) - 1); };
+                plat.setMaxValueOf(T::Char, 0x7f); plat.setMaxValueOf(T::Char_S, 0x7f); plat.setMaxValueOf(T::Char_U, 0xff);
+                plat.setMaxValueOf(T::Short_S, 0x7fff); plat.setMaxValueOf(T::Short_U, 0xffff);
+                plat.setMaxValueOf(T::Int_S, smax(ib)); plat.setMaxValueOf(T::Int_U, umax(ib));
+                plat.setMaxValueOf(T::Long_S, smax(lb)); plat.setMaxValueOf(T::Long_U, umax(lb));
+                plat.setMaxValueOf(T::LongLong_S, smax(llb)); plat.setMaxValueOf(T::LongLong_U, umax(llb));
+                plat.setMaxValueOf(T::Bool, 1);
+            }
+            Analysis a = analyse(unhex(w[configured ? 2 : 1]), opts, P_Check, SyntaxTree::SyntaxCategory::Any, TextCompleteness::Fragment, configured ? &plat : nullptr);
             StmtCollector c(a.tree);
             c.visit(a.tree->rootNode());
             std::string s;
